@@ -14,7 +14,13 @@ def run_variant(v, repo=REPO):
         for sub in ("src", "include", "codegen"):
             shutil.copytree(os.path.join(repo, sub), os.path.join(d, sub))
         shutil.copy(os.path.join(repo, "meson.build"), d)
-        for ed in v["edits"]:
+        if v.get("patch"):
+            # a whole patch (behaviour-preserving refactoring or seeded change), applied to the scratch copy
+            pf = os.path.join(HERE, v["patch"])
+            r = subprocess.run(["patch", "-p1", "-s", "-f", "-d", d, "-i", pf], capture_output=True, text=True)
+            if r.returncode != 0:
+                return "skipped", "patch does not apply"
+        for ed in v.get("edits", []):
             p = os.path.join(d, ed["file"])
             s = open(p).read()
             if ed.get("regex"):
@@ -29,7 +35,7 @@ def run_variant(v, repo=REPO):
                 s = s.replace(ed["old"], ed["new"], 1)
             open(p, "w").write(s)
         # still a valid C program?
-        for ed in v["edits"]:
+        for ed in v.get("edits", []):
             if ed["file"].endswith((".c", ".h")):
                 src = os.path.join(d, ed["file"]) if ed["file"].endswith(".c") else os.path.join(d, "src", "cimba.c")
                 gen = os.path.join(d, "gen"); os.makedirs(gen, exist_ok=True)
